@@ -11,7 +11,9 @@ RULE = ('case = (a) every AnsiStr leaving the API (constructor or any AnsiStr me
         '\'%s\' % a == a.to_str(); (b) twin execution: one constructor form (str / ANSI-coded str / AnsiString / '
         'AnsiStr source x with/without settings) or one shared method called on an AnsiString copy (non-in-place '
         'form) and on AnsiStr(receiver) with the same arguments; results compared by type, text, per-character '
-        'settings, str(), to_str under 8 flag sets and 2 format specs.  Shared methods are found by introspection; '
+        'settings, str(), to_str under 8 flag sets and 2 format specs; (c) copy/deepcopy/pickle of an AnsiStr; (d) an '
+        'AnsiStr made from a mutable AnsiString (conversion, +, +=, join, replace; empty and non-empty receivers) is '
+        're-observed after in-place edits of that AnsiString: payload == rendering == what it was.  Shared methods are found by introspection; '
         'those never exercised are listed in evidence.  Non-trivial: styled receiver or settings given; distinct = '
         'distinct (operation, receiver, arguments).')
 ASSUMPTIONS = ['precedence-equivalence for per-character settings', 'a list and a tuple of pieces are both accepted']
@@ -276,6 +278,71 @@ def copy_protocol_probe(ctx, mon, rng, ex):
             ctx.violation('copy-protocol-payload', dict(det, what=bad), mech='copy-protocol:' + how.rstrip('025'))
 
 
+def payload_after_source_edit(ctx, mon, rng, ex):
+    """"The str payload of an AnsiStr equals its rendering" holds for as long as the AnsiStr lives: an AnsiStr made
+    from a mutable AnsiString (conversion, + / += / join with an empty or non-empty AnsiStr receiver, replace with an
+    AnsiString replacement) is re-observed after that AnsiString has been edited in place."""
+    L = ctx.L
+    muts = [v for v in ex.pool if isinstance(v, L.AnsiString)]
+    with mon.quiet():
+        try:
+            if muts and rng.random() < 0.7:
+                m = rng.choice(muts).copy()
+            else:
+                m = L.AnsiString(rng.choice(['piece', 'a b', 'x']), rng.choice(['red', 'bold', 'bg_blue']))
+            recv = rng.choice([L.AnsiStr(''), L.AnsiStr(''), L.AnsiStr('', 'red'), L.AnsiStr('q'), L.AnsiStr('q', 'italic')])
+            O.observe(m)
+        except Exception:
+            return
+    how = rng.choice(['convert', 'add', 'iadd', 'join1', 'join2', 'replace', 'radd', 'format'])
+    ctx.ev('payload-after-source-edit')
+    ctx.sig('payload-after-source-edit:%s:%s' % (how, 'empty' if not recv.base_str else 'text'))
+    det = {'how': how, 'receiver': repr(str.__str__(recv)), 'source': None}
+    try:
+        det['source'] = O.observe(m).describe()
+        if how == 'convert':
+            a = L.AnsiStr(m)
+        elif how == 'add':
+            a = recv + m
+        elif how == 'iadd':
+            a = recv
+            a += m
+        elif how == 'join1':
+            a = recv.join([m])
+        elif how == 'join2':
+            a = L.AnsiStr('').join([m, m])
+        elif how == 'replace':
+            a = L.AnsiStr('q').replace('q', m)
+        elif how == 'radd':
+            a = L.AnsiStr(m + recv)
+        else:
+            a = L.AnsiStr(m).ljust(0)
+        if not isinstance(a, L.AnsiStr):
+            return
+        before = (str.__str__(a), a.to_str(), a.base_str)
+        # in-place edits of the source only
+        for _ in range(rng.randint(1, 2)):
+            k = rng.randrange(4)
+            if k == 0:
+                m.apply_formatting('blink')
+            elif k == 1:
+                m.assign_str(m.base_str + 'ZZ')
+            elif k == 2:
+                m += L.AnsiString('!', 'bg_cyan')
+            else:
+                m.clear_formatting()
+        after = (str.__str__(a), a.to_str(), a.base_str)
+    except Exception as e:
+        ctx.grey('payload-after-source-edit raised %s' % type(e).__name__)
+        return
+    ctx.nontriv(('payload-edit', how, before[0]))
+    if after[0] != after[1]:
+        ctx.violation('payload-differs-from-rendering-after-source-edit',
+                      dict(det, payload=after[0], rendering=after[1], payload_before=before[0]), mech='payload-after-source-edit')
+    elif after != before:
+        ctx.violation('AnsiStr-changed-by-source-edit', dict(det, before=before, after=after), mech='payload-after-source-edit')
+
+
 def ctor_twin(ctx, mon, rng, ex):
     L = ctx.L
     kind = rng.choice(['str', 'ansi', 'AnsiString', 'AnsiStr'])
@@ -341,6 +408,8 @@ def drive(ctx, mon, tier, only_case=None):
             twin_op(ctx, mon, rng, ex, hg, exercised)
         for _ in range(2):
             copy_protocol_probe(ctx, mon, rng, ex)
+        for _ in range(2):
+            payload_after_source_edit(ctx, mon, rng, ex)
 
     run_cases(ctx, mon, CASES[tier], body, only_case=only_case)
     sh = shared_methods(L)
